@@ -42,13 +42,14 @@ type schedEvent struct {
 }
 
 type scheduler struct {
-	tasks  []*mtask
-	events chan schedEvent
-	rng    *RNG
-	segs   []Seg
-	mode   string // stratified | sliced | replay
-	mean   int
-	hintFunc string // function in which the task that just parked is suspended
+	tasks          []*mtask
+	events         chan schedEvent
+	rng            *RNG
+	segs           []Seg
+	mode           string // stratified | sliced | replay
+	mean           int
+	hintFunc       string // function in which the task that just parked is suspended
+	focus          string // stratified mode: library function in which this run concentrates its suspensions ("" = none)
 	switchesInCall int
 }
 
@@ -113,7 +114,20 @@ func (s *scheduler) newDirective(t *mtask) {
 		if len(cand) == 0 {
 			return
 		}
-		if len(same) > 0 && s.rng.Chance(0.6) {
+		var inFocus []int
+		if s.focus != "" {
+			for _, site := range cand {
+				if simyield.SiteFunc[site] == s.focus {
+					inFocus = append(inFocus, site)
+				}
+			}
+		}
+		if len(inFocus) > 0 && s.rng.Chance(0.8) {
+			// focus: most suspensions of this run happen inside one function
+			// that at least two tasks execute, so that every function of the
+			// library gets runs in which two instances overlap inside it
+			cand = inFocus
+		} else if len(same) > 0 && s.rng.Chance(0.6) {
 			// rendezvous: park this task inside the function in which the
 			// previous task is suspended (shared scratch is only harmful when
 			// two instances are inside the same code at overlapping times)
@@ -155,6 +169,30 @@ func runMulti(t *Trace, want string, rng *RNG) (results []*Result, switches int)
 	if s.mode == "stratified" {
 		for _, mt := range s.tasks {
 			mt.solo, mt.profile = soloRun(mt.tr, want)
+		}
+	}
+	if s.mode == "stratified" && rng.Chance(0.7) {
+		// functions executed by at least two tasks, in site order (deterministic)
+		cnt := map[string]int{}
+		for _, mt := range s.tasks {
+			seen := map[string]bool{}
+			for site, total := range mt.profile {
+				if f := simyield.SiteFunc[site]; total > 0 && !seen[f] {
+					seen[f] = true
+					cnt[f]++
+				}
+			}
+		}
+		var shared []string
+		done := map[string]bool{}
+		for site := 0; site < simyield.NumSites; site++ {
+			if f := simyield.SiteFunc[site]; cnt[f] >= 2 && !done[f] {
+				done[f] = true
+				shared = append(shared, f)
+			}
+		}
+		if len(shared) > 0 {
+			s.focus = shared[rng.Intn(len(shared))]
 		}
 	}
 	for _, mt := range s.tasks {
